@@ -361,7 +361,7 @@ func c11Programs(thorough bool) [][]c11Node {
 	leaves := c11Leaves(thorough)
 	var progs [][]c11Node
 	progs = append(progs, c11Seqs(leaves, 2)...)
-	prefixes := []string{"/g", "/{p}"}
+	prefixes := []string{"/g", "/{p}", ""}
 	ghs := []int{0, 2}
 	if thorough {
 		ghs = []int{0, 1, 2}
@@ -415,16 +415,18 @@ func c11Programs(thorough bool) [][]c11Node {
 		for _, a := range red {
 			for _, b := range red {
 				for _, tail := range []int{-1, 0, 3} {
-					inner := []c11Node{a, b}
-					node := c11Node{Kind: "group", Path: "/g", NH: prof[len(prof)-1], Children: inner}
-					for d := len(prof) - 2; d >= 0; d-- {
-						ch := []c11Node{node}
-						if tail >= 0 && d == len(prof)-2 {
-							ch = append(ch, red[tail])
+					for _, gp := range []string{"/g", ""} {
+						inner := []c11Node{a, b}
+						node := c11Node{Kind: "group", Path: gp, NH: prof[len(prof)-1], Children: inner}
+						for d := len(prof) - 2; d >= 0; d-- {
+							ch := []c11Node{node}
+							if tail >= 0 && d == len(prof)-2 {
+								ch = append(ch, red[tail])
+							}
+							node = c11Node{Kind: "group", Path: gp, NH: prof[d], Children: ch}
 						}
-						node = c11Node{Kind: "group", Path: "/g", NH: prof[d], Children: ch}
+						progs = append(progs, []c11Node{node})
 					}
-					progs = append(progs, []c11Node{node})
 				}
 			}
 		}
